@@ -209,7 +209,7 @@ def r5(cx):
                  "`%s` uses cache accessors %s, expected %s" % (fn, sorted(have), sorted(want)))
     # inside the cache: each accessor pair uses the same kind constant
     kinds = {}
-    for b in f.bodies.values():
+    for b in f.scan_bodies():
         if b.self_ty == "cache::BlockCache" and (b.name or "").startswith(("insert_", "get_")):
             vals = set()
             for i, j, lhs, rv, line in b.assigns():
